@@ -146,6 +146,55 @@ def _reshape_cases(fails):
   st = common_utils.stack_forest(forest)
   if not np.array_equal(np.asarray(st['w']), np.stack([f['w'] for f in forest])) or not np.array_equal(np.asarray(st['k']['v']), np.array([0, 10, 20])):
     fails.append(dict(inputs=dict(fn='stack_forest'), observed='stack_forest is not the leaf-wise stack', violated='reshape-helpers'))
+  # forests whose trees differ in dtype at a leaf position: the result is np.stack's (promoted dtype, exact values)
+  mixed = {
+      'int then float': [{'lr': np.array(0)}, {'lr': np.array(0.25)}, {'lr': np.array(0.5)}],
+      'float32 then float64': [{'lr': np.array(1.0, np.float32)}, {'lr': np.array(16777217.0, np.float64)}],
+      'int16 then int32': [{'lr': np.array([1, 2], np.int16)}, {'lr': np.array([70000, 3], np.int32)}],
+      'bool then int': [{'lr': np.array(True)}, {'lr': np.array(7)}],
+      'python scalars': [{'lr': 0}, {'lr': 0.5}],
+  }
+  for tag, forest in mixed.items():
+    cases += 1
+    try:
+      got = np.asarray(common_utils.stack_forest(forest)['lr'])
+      want = np.stack([f['lr'] for f in forest])
+      ok = got.shape == want.shape and got.dtype == want.dtype and np.array_equal(got, want)
+      msg = f'{got.tolist()} ({got.dtype}) instead of {want.tolist()} ({want.dtype})'
+    except Exception as e:  # noqa
+      ok, msg = False, f'raised {e!r}'[:200]
+    if not ok:
+      fails.append(dict(inputs=dict(fn='stack_forest', forest=tag), observed=msg, violated='reshape-helpers'))
+      return cases
+  # unreplicate is x[0] at every leaf, whatever the layout of the leaf over the devices
+  from flax import jax_utils
+  from jax.sharding import Mesh, NamedSharding, PartitionSpec as P
+  devs = np.array(jax.local_devices())
+  base = np.arange(d * 4 * 3, dtype=np.float32).reshape(d, 4, 3)
+  layouts = {'numpy leaf': base, 'device array': jnp.asarray(base)}
+  if d > 1:
+    mesh = Mesh(devs, ('d',))
+    layouts['leading axis split'] = jax.device_put(base, NamedSharding(mesh, P('d')))
+    layouts['fully replicated'] = jax.device_put(base, NamedSharding(mesh, P()))
+    if 4 % d == 0:
+      layouts['second axis split'] = jax.device_put(base, NamedSharding(mesh, P(None, 'd')))
+      layouts['pmap out_axes=1'] = jax.pmap(lambda v: v * 1.0, out_axes=1)(jnp.asarray(np.arange(d * d * 3, dtype=np.float32).reshape(d, d, 3)))
+    if d % 2 == 0 and d >= 4:
+      mesh2 = Mesh(devs[:4].reshape(2, 2), ('a', 'b'))
+      layouts['2x2 mesh, two axes split'] = jax.device_put(np.arange(4 * 6, dtype=np.float32).reshape(4, 6), NamedSharding(mesh2, P('a', 'b')))
+    layouts['pmap output'] = jax.pmap(lambda v: v + 1.0)(jnp.asarray(base))
+  for tag, arr in layouts.items():
+    cases += 1
+    try:
+      got = np.asarray(jax_utils.unreplicate({'x': arr})['x'])
+      want = np.asarray(arr)[0]
+      ok = got.shape == want.shape and np.array_equal(got, want)
+      msg = f'shape {got.shape} instead of x[0] with shape {want.shape}' if got.shape != want.shape else 'values differ from x[0]'
+    except Exception as e:  # noqa
+      ok, msg = False, f'raised {e!r}'[:200]
+    if not ok:
+      fails.append(dict(inputs=dict(fn='unreplicate', layout=tag, devices=d), observed=msg, violated='reshape-helpers'))
+      return cases
   return cases
 
 
@@ -161,7 +210,7 @@ def run(tier, seed):
       break
   import jax
   return dict(name=NAME, cases=cases, distinct=cases,
-              bound=f'scan_in_dim: all ordered axis tuples of length 1-3 of shapes (2,3,4), (2,3,2,2) x keepdims; pad_shard_unpad: batch 1..{2 * jax.local_device_count() + 1} on {jax.local_device_count()} host devices x min_device_batch {{None,1,2,3}}; prefetch_to_device: buffer size 1..3 x source length 0..5 x every failing position; onehot (3 label shapes x 6 on/off pairs incl. inf / nan), shard, stack_forest',
+              bound=f'scan_in_dim: all ordered axis tuples of length 1-3 of shapes (2,3,4), (2,3,2,2) x keepdims; pad_shard_unpad: batch 1..{2 * jax.local_device_count() + 1} on {jax.local_device_count()} host devices x min_device_batch {{None,1,2,3}}; prefetch_to_device: buffer size 1..3 x source length 0..5 x every failing position; onehot (3 label shapes x 6 on/off pairs incl. inf / nan), shard, stack_forest (+ 5 mixed-dtype forests), unreplicate x 8 device layouts',
               failures=fails[:2], error=None)
 
 
